@@ -21,10 +21,11 @@ META = {
         "C02.2 / C17.3), and the default request pool is created and started in the constructor and stored before the base "
         "constructor can accept connections; C12.7 every normal path through the constructors of the dispatcher, the plain and pooled "
         "servers and the CGI handler runs the constructor of each state-carrying base (frozen table BASE_INITS), and each hands on the "
-        "configuration it received. C12.8 (imported from C04.3) only a request without an id member, or with id null / empty string, is treated as a notification: a request carrying any other id (0, false, 0.0 included) is answered, not dropped. C12.9 (imported from C09.5 / C10.1) stop() of the request pool joins a snapshot of the thread list taken under the pool lock and waits for every member until it is not alive (server_close returns only when every worker has terminated), and a worker is started whenever the thread counter - not the length of the list a retiring worker is still in - is below the maximum (a queued request is never left without a worker). C12.10 (imported from C02.6) every reply can be encoded and sent: the backend emits ASCII only, so to_bytes() in do_POST - which runs outside the handler's catch-all - cannot fail and leave a request unanswered (the stdlib client then silently re-sends it: a duplicated execution)."),
+        "configuration it received. C12.8 (imported from C04.3) only a request without an id member, or with id null / empty string, is treated as a notification: a request carrying any other id (0, false, 0.0 included) is answered, not dropped. C12.9 (imported from C09.5 / C10.1) stop() of the request pool joins a snapshot of the thread list taken under the pool lock and waits for every member until it is not alive (server_close returns only when every worker has terminated), and a worker is started whenever the thread counter - not the length of the list a retiring worker is still in - is below the maximum (a queued request is never left without a worker). C12.10 (imported from C02.6) every reply can be encoded and sent: the backend emits ASCII only, so to_bytes() in do_POST - which runs outside the handler's catch-all - cannot fail and leave a request unanswered (the stdlib client then silently re-sends it: a duplicated execution). C12.11 (imported from C11.3 / C11.7) stopping the request pool queues a sentinel per worker with a put that waits for room and joins every worker (server_close returns, workers terminate)."),
     "does_not_decide": "absence of cross-talk, lost or duplicated executions under concurrency as observed behaviour; "
                        "termination of server_close with in-flight requests.",
-    "rules": {"C12.10": "imported C02.6 (backend options)",
+    "rules": {"C12.11": "imported C11.3, C11.7 (stop protocol)",
+              "C12.10": "imported C02.6 (backend options)",
               "C12.9": "imported C09.5 (stop protocol: snapshot, joins), C10.1 (who-may-create + dominance)",
               "C12.8": "imported C04.3 (E7 truth table of the notification predicate)",
               "C12.1": "call-site typestate (who-may-call shutdown, guard scan)", "C12.2": "dominance / post-dominance on normal paths",
@@ -167,3 +168,8 @@ def check(ck):
     from rules import c02 as _c02t12, common as _cm1210
     _cm1210.import_rules(ck, _c02t12, {"C02.6": "C12.10"})
     ck.floor("C12.10", 3)
+
+    # ---- C12.11 pool stop protocol; per-request ids (shared with C11.3 / C11.7 / C03.1) --------------------------------------------
+    from rules import c11 as _c11p, common as _cm1211
+    _cm1211.import_rules(ck, _c11p, {"C11.3": "C12.11", "C11.7": "C12.11"})
+    ck.floor("C12.11", 10)
